@@ -149,6 +149,16 @@ SlotAccounting ==     \* free + held-by-tasks + handed-off = configured size (wh
   (g.size # Inf /\ g.sizeFixed) =>
      st.val + Len(st.running) + Len(st.cancelled)
      + Cardinality({sp \in SPs : st.tk[sp].st = "pend" /\ st.tk[sp].wait = "sem" /\ st.tk[sp].fst = "res"}) = g.size
+(* the same accounting as an instance of the abstract protocol of SlotAccounting.tla, whose invariant Apalache proves
+   inductive for every size: PoolImpl's reachable states (in bounds) satisfy it under this mapping *)
+SA == INSTANCE SlotAccounting WITH
+        N <- Size, free <- st.val,
+        held <- Len(st.running) + Len(st.cancelled),
+        transit <- Cardinality({sp \in SPs : st.tk[sp].st = "pend" /\ st.tk[sp].wait = "sem" /\ st.tk[sp].fst = "res"}),
+        waiting <- Cardinality({sp \in SPs : st.tk[sp].st = "pend" /\ st.tk[sp].wait = "sem" /\ st.tk[sp].fst = "pend"}),
+        live <- Cardinality({t \in PT : st.tk[t].st = "pend" /\ st.tk[t].pc = "gate"})
+RefinesSlotAccounting == (Size # Inf /\ g.sizeFixed /\ g.size = Size) => SA!IndInv
+
 RegistriesDisjoint ==
   /\ SeqSetL(st.running) \cap SeqSetL(st.cancelled) = {}
   /\ SeqSetL(st.running) \cap SeqSetL(st.ended) = {}
